@@ -20,3 +20,30 @@ void vfx_u32_setl(void *b, uint32_t x) { a_u32_setl(b, x); }
 void vfx_u32_setb(void *b, uint32_t x) { a_u32_setb(b, x); }
 void vfx_u64_setl(void *b, uint64_t x) { a_u64_setl(b, x); }
 void vfx_u64_setb(void *b, uint64_t x) { a_u64_setb(b, x); }
+
+/* store / load / store / load on ONE buffer inside one optimised function that sees only the exported declarations: if a
+   getter's declaration promises more than the function keeps (seeded change C19-F: __attribute__((const)) on the prototypes),
+   the compiler merges the two loads and the second one returns the value stored first. */
+#define SETGET(W, T)                                                                  \
+    void vfx_setget##W(void *b, T x, T y, T out[4])                                   \
+    {                                                                                 \
+        a_u##W##_setl(b, x);                                                          \
+        out[0] = a_u##W##_getl(b);                                                    \
+        out[1] = a_u##W##_getb(b);                                                    \
+        a_u##W##_setb(b, y);                                                          \
+        out[2] = a_u##W##_getb(b);                                                    \
+        out[3] = a_u##W##_getl(b);                                                    \
+    }                                                                                 \
+    T vfx_setget_loop##W(void *b, T const *v, unsigned n)                             \
+    {                                                                                 \
+        T acc = 0;                                                                    \
+        for (unsigned i = 0; i < n; ++i)                                              \
+        {                                                                             \
+            a_u##W##_setl(b, v[i]);                                                   \
+            acc = (T)(acc * 31u + a_u##W##_getl(b));                                  \
+        }                                                                             \
+        return acc;                                                                   \
+    }
+SETGET(16, uint16_t)
+SETGET(32, uint32_t)
+SETGET(64, uint64_t)
